@@ -20,6 +20,9 @@ func checkC14(r *Report, p *Program) {
 	r14_4(r, p)
 	r12_5(r, p) // R12.5 rule id kept: same obligations
 	keyCompleteness(r, p, "R14.5", "informer.resourceKey")
+	r14_6(r, p)
+	// no event is lost between the replay of the cache to a new handler and its registration (shared with C18)
+	r18_4(r, p)
 }
 
 func handlerLiterals(p *Program) (out []struct {
@@ -430,6 +433,12 @@ func r14_3(r *Report, p *Program) {
 			if nsd && !strings.Contains(E(cs.Recv()), "GetNamespace)(p1)") {
 				ok, why = false, "namespaced parents are not listed in the child's namespace"
 			}
+			// candidates are ALL parents in scope: the parent label selector is applied later by
+			// enqueueParentObject, which lets through parents that no longer match but still
+			// carry the finalizer (they are still reconciled and still adopt)
+			if c := callOf(cs.Arg(0)); c == nil || engine.CallKey(c.Common()) != "k8s.io/apimachinery/pkg/labels.Everything" {
+				ok, why = false, "the candidate parents are listed with "+E(cs.Arg(0))+" instead of labels.Everything(): a parent that fell out of the controller's label selector but still carries its finalizer (and is still synced) is no longer woken by a matching orphan"
+			}
 		}
 		// keep ⇔ selector ok ∧ non-empty ∧ matches
 		if ok {
@@ -649,5 +658,43 @@ func r14_4(r *Report, p *Program) {
 			}
 		}
 		r.Check(rule, FK(f), p.Pos(f.Pos()), ok, "hook asked exactly on a cache miss", why)
+	}
+}
+
+// r14_6: the informer maps are keyed by the resource AND version the controller
+// was configured with. A lookup key built from what an object says about itself
+// or its owner (ownerReference.apiVersion, obj.GetAPIVersion()) misses whenever
+// that version differs from the configured one, and the event is dropped.
+func r14_6(r *Report, p *Program) {
+	const rule = "R14.6"
+	r.Rule(rule, "every InformerMap lookup/store key takes its group/version from configuration or discovery (a resource rule's or APIResource's APIVersion), never from an ownerReference or from the object's own apiVersion")
+	r.Floor(rule, 8)
+	ord := map[string]int{}
+	for _, f := range p.Scanned {
+		for _, cs := range callsTo(f, false, "controller/common.InformerMap.Get", "controller/common.InformerMap.Set") {
+			key := cs.Arg(0)
+			bad := ""
+			engine.BackSlice(key, func(x ssa.Value) bool {
+				switch y := x.(type) {
+				case *ssa.FieldAddr:
+					if fieldNameOf(deref(y.X.Type()), y.Field) == "APIVersion" && strings.HasSuffix(deref(y.X.Type()).String(), "meta/v1.OwnerReference") {
+						bad = "an ownerReference's apiVersion (" + E(y) + ")"
+						return true
+					}
+				case *ssa.Call:
+					if strings.HasSuffix(engine.CallKey(y.Common()), "Unstructured.GetAPIVersion") || strings.HasSuffix(engine.CallKey(y.Common()), "Unstructured.GroupVersionKind") {
+						bad = "the object's own apiVersion (" + E(y) + ")"
+						return true
+					}
+				}
+				return false
+			}, func(k string) bool {
+				return strings.HasSuffix(k, "schema.ParseGroupVersion") || strings.HasSuffix(k, "GroupVersion.WithResource") || strings.HasSuffix(k, "GroupVersion.WithKind")
+			})
+			k := Short(FK(f)) + "→" + Short(cs.Key)
+			c := sf("%s#%d", k, ord[k])
+			ord[k]++
+			r.Check(rule, c, p.InstrPos(cs.Instr), bad == "", "key version from configuration/discovery: "+E(key), "the informer map key takes its version from "+bad+": when that differs from the version the controller was configured with, the lookup returns nil and the event is dropped")
+		}
 	}
 }
